@@ -491,7 +491,7 @@ func init() {
 			}},
 		},
 		Sanitize: []string{"pairs", "unary", "index", "random"},
-		Floors: []core.Floor{{Key: "tuples", Quick: 300000, Thor: 3000000}, {Key: "law_evaluations", Quick: 20000, Thor: 2000000}, {Key: "tag:op:", Quick: 400, Thor: 400}, {Key: "same_storage_pairs", Quick: 60, Thor: 60}, {Key: "nontrivial", Quick: 20000, Thor: 1000000}},
+		Floors:   []core.Floor{{Key: "tuples", Quick: 300000, Thor: 3000000}, {Key: "law_evaluations", Quick: 20000, Thor: 2000000}, {Key: "tag:op:", Quick: 400, Thor: 400}, {Key: "same_storage_pairs", Quick: 60, Thor: 60}, {Key: "nontrivial", Quick: 20000, Thor: 1000000}},
 		Extra: func(a *core.Agg, cov map[string]any) {
 			cov["exhaustive_subspaces"] = "pairs, unary and index families enumerate the pool completely in both tiers"
 		},
